@@ -6,7 +6,7 @@ from concurrent.futures import ThreadPoolExecutor
 from common import BIN, NCPU, mktemp_dir
 
 
-def run_cli(tool, args, cwd, env=None, timeout=30, stdin=None):
+def run_cli(tool, args, cwd, env=None, timeout=30, stdin=None, _retry=False):
     e = {"PATH": BIN + ":/usr/bin:/bin", "HOME": cwd}
     if os.environ.get("GOCOVERDIR"):
         e["GOCOVERDIR"] = os.environ["GOCOVERDIR"]     # tools/coverage.py
@@ -16,6 +16,9 @@ def run_cli(tool, args, cwd, env=None, timeout=30, stdin=None):
         p = subprocess.run([os.path.join(BIN, tool)] + list(args), cwd=cwd, env=e, capture_output=True, timeout=timeout, input=stdin)
         return {"rc": p.returncode, "out": p.stdout.decode("utf-8", "replace"), "err": p.stderr.decode("utf-8", "replace"), "out_bytes": p.stdout}
     except subprocess.TimeoutExpired:
+        if not _retry:
+            # an expired deadline on a loaded machine is not a hang: once more with four times the time
+            return run_cli(tool, args, cwd, env=env, timeout=timeout * 4, stdin=stdin, _retry=True)
         return {"rc": None, "out": "", "err": "TIMEOUT", "timeout": True, "out_bytes": b""}
 
 
